@@ -579,9 +579,9 @@ class CrossVersion(UperBase):
         return strip_to_root(val, small_or_w, other)
 
     def finding_class(self, req, ans):
-        items = uperlib.split_sx(req.split(" ", 2)[2])
-        if items[0].startswith("zoo_ver::SetV"):
-            return "uper.set_additions_sorted"
+        # no open class.  (Was uper.set_additions_sorted for the family zoo_ver::SetV: the generator
+        # sorted the extension additions of a SET by tag among themselves; repaired in
+        # sort_fields_canonically, the family stays in the stream as regression corpus.)
         return None
 
     def tag(self, req, ans):
